@@ -151,12 +151,12 @@ PROPS = {
     },
     "C09": {
         "controls": ["BIT"],
-        "rules": [("RT-1", tab2.rt1), ("TAB-6", tab2.tab6), ("BIT-2", bit.bit2), ("FLW-7", flw2.flw7)],
+        "rules": [("RT-1", tab2.rt1), ("RT-2", tab2.rt2), ("TAB-6", tab2.tab6), ("FLW-6", flw2.flw6), ("BIT-2", bit.bit2), ("FLW-7", flw2.flw7)],
         "explanation": "Decides three necessary conditions of the text round trip, none of them the round trip itself. RT-1 writer/reader agreement of the suprasegmental notation: "
                        "Word::render_normal writes primary stress as the mark Word::setup reads as Primary, secondary likewise, opens every non-initial unstressed syllable with '.', "
                        "writes a segment equal to its predecessor as 'ː' (read back as a repetition of the last segment) and a non-zero tone as its decimal digits (parsed back into "
                        ".tone). TAB-6: every mark render_normal can push is tested by Word::setup; the americanist replacement chain of render_normal is the exact inverse of Word::new's, "
-                       "in an order where no replacement destroys a later source. BIT-2 / FLW-7: a place is kept in canonical form by every writer (for all values), so that the derived "
+                       "in an order where no replacement destroys a later source. RT-2: the renderer ranks candidate base phones with a stable sort (ties keep the sorted table order). FLW-6: every tone that enters a word is zero-free and at most four digits, which is what the reader reproduces from the printed digits. BIT-2 / FLW-7: a place is kept in canonical form by every writer (for all values), so that the derived "
                        "`==` on the re-parsed segment compares equal representations.",
         "does_not_decide": "the renderer's base+diacritic search against the parser's left-to-right diacritic application (per-bundle behaviour, ~400k values), the cursor arithmetic of Word::setup "
                            "(e.g. what follows a tone number), U+FFFD cases.",
